@@ -57,9 +57,9 @@ PROPS["C14"] = {
     "units": ["ws_frame"],
     "kani": [],
     "technique": "Verus contracts on the extracted real ws::Parser::{parse_metadata, parse} and OpCode conversions against an RFC 6455 section 5.2 header oracle; header segmentation lemma over the contracts",
-    "level_text": "deductive proof, for all byte strings, roles and max_size values, that the frame parser decides exactly the RFC 6455 header (mask bit per role, reserved opcodes, 7/16/64-bit lengths), consumes nothing until a frame is complete, then consumes exactly idx+len bytes, unmasks the payload, rejects over-long control frames and never delivers more than max_size; decided headers are stable under extension of the input (segmentation lemma)",
+    "level_text": "deductive proof, for all byte strings, roles and max_size values, that the frame parser decides exactly the RFC 6455 header (mask bit per role, reserved opcodes, 7/16/64-bit lengths), consumes nothing until a frame is complete, then consumes exactly idx+len bytes, unmasks the payload, rejects over-long control frames and never delivers more than max_size; decided headers are stable under extension of the input (segmentation lemma); that Parser::write_message appends exactly the RFC 6455 frame (minimal 7/16/64-bit length form at the 125/126/65535/65536 boundaries, mask bit and key per role, payload XOR key); and (round-trip lemma over the two contracts, all lengths and keys) that the receiving role's parser recovers fin, opcode, length and the original payload from an encoded frame followed by arbitrary bytes; Codec::decode follows the RFC 6455 section 5.4 fragmentation automaton",
     "level_note": "assumes shim contracts for BytesMut, big-endian helpers (R14) and apply_mask == XOR with key[i mod 4]; one obligation (oversize frame refused before buffering) fails on the unchanged tree and is recorded as a known finding",
-    "not_decided": ["hash_key / handshake (sha1, base64 dependencies)", "Parser::write_message and the encode/decode round trip: unit under construction", "payload bytes carried by Codec::decode's Frame (closures payload.map(|pl| pl.freeze())): only the frame kind and the continuation flag are decided"],
+    "not_decided": ["hash_key / verify_handshake (sha1, base64 dependencies; header parsing)", "payload bytes carried by Codec::decode's Frame (closures payload.map(|pl| pl.freeze())): only the frame kind and the continuation flag are decided", "Codec::encode (Message -> write_message arguments) and write_close", "apply_mask_fast32's unsafe align_to_mut (assumed equal to XOR with key[i mod 4])"],
     "assumptions": ["Parser::parse precondition: the buffer length fits usize (type invariant of BytesMut)"],
 }
 
